@@ -37,7 +37,7 @@ def run(ctx):
                        "a special grid (+-0, +-1, +-inf, +-NaN, denormals, limits) and rapidcheck draws (specials, raw bit patterns, small) otherwise; for each value the six "
                        "comparisons with ZERO in both operand orders must equal the raw comparison with 0, (q+ZERO),(q-ZERO),(ZERO+q) must be bit-equal (or both NaN) to the raw "
                        "x+0, x-0, 0+x on the promoted type with the raw result type, q+ZERO==q for non-NaN, Quantity{ZERO}/=ZERO/assignment give 0, R r = ZERO and "
-                       "chrono::duration = ZERO give 0; the same TUs must be accepted by the other configurations; 8 negative probes with twins x units x reps: ZERO is never "
+                       "chrono::duration = ZERO give 0; ZERO converts (trait, static_cast, constexpr copy-init) to 0 of all 18 fundamental arithmetic types and 6 chrono durations under every configuration; the same TUs must be accepted by the other configurations; 8 negative probes with twins x units x reps: ZERO is never "
                        "accepted where a QuantityPoint is required. Non-trivial: x != 0 or special; distinct by (unit, rep, bits(x)).")
     ctx.assumptions += ["p + ZERO / p - ZERO are not asserted (not places where a point is required)"]
     quick = ctx.quick()
